@@ -224,7 +224,7 @@ def gen_problem(rng, tier, open_ends=False):
     blk = [[False] * w for _ in range(h)]
     seq = None
     gates = None
-    k = rng.choice([0, 1, 1, 2, 2, 3, 3, 4])
+    k = rng.choice([0, 1, 1, 2, 2, 3, 3, 3, 4, 4])
     if loops and rng.random() < 0.85:
         a = rng.choice(loops)
         if rng.random() < 0.7:
@@ -292,7 +292,7 @@ def gen_problem(rng, tier, open_ends=False):
         if len(idx) == G:
             for rank, (_, r) in enumerate(sorted(idx)):
                 pos[r] = rank + 1
-    pnum = rng.choice([0.0, 0.5, 0.5, 1.0])
+    pnum = rng.choice([0.0, 0.5, 0.5, 1.0, 1.0])
     out = []
     for r in gates:
         if rng.random() < pnum:
@@ -301,6 +301,12 @@ def gen_problem(rng, tier, open_ends=False):
             n = -1
         out.append(list(r) + [n])
     kind = "open" if open_ends else "wf"
+    numbered = [i for i in range(G) if out[i][4] >= 1]
+    if len(numbered) >= 2 and rng.random() < 0.2:
+        vals = [out[i][4] for i in numbered]    # the right numbers on the wrong gates
+        rng.shuffle(vals)
+        for i, v in zip(numbered, vals):
+            out[i][4] = v
     if out and rng.random() < 0.15:
         i = rng.randrange(G)
         out[i][4] = rng.randint(1, G)           # possibly wrong / duplicated number
